@@ -473,6 +473,79 @@ MUTANTS += [
       (U, "                .acquire()\n                .await\n                .map_err(|_| PoolError::Closed),", "                .acquire()\n                .await\n                .map_err(|_| PoolError::Timeout),")),
 ]
 
+S = 'sync/src/lib.rs'
+MUTANTS += [
+    m('B14-1', 'Drop for SyncWrapper destroys the value inline', ['C14'], ['R14.2'],
+      (S, """        let arc = self.obj.clone();
+        // Drop the `rusqlite::Connection` inside a `spawn_blocking`
+        // as the `drop` function of it can block.
+        self.runtime
+            .spawn_blocking_background(move || match arc.lock() {
+                Ok(mut guard) => drop(guard.take()),
+                Err(e) => drop(e.into_inner().take()),
+            })
+            .unwrap();""", """        match self.obj.lock() {
+            Ok(mut guard) => drop(guard.take()),
+            Err(e) => drop(e.into_inner().take()),
+        }""")),
+    m('B14-2', 'interact runs the closure inline when the lock is free', ['C14'], ['R14.1'],
+      (S, "        let arc = self.obj.clone();\n        #[cfg(feature = \"tracing\")]\n        let span = tracing::Span::current();\n        self.runtime", "        if let Ok(mut guard) = self.obj.try_lock() {\n            if let Some(conn) = guard.as_mut() {\n                return Ok(f(conn));\n            }\n        }\n        let arc = self.obj.clone();\n        #[cfg(feature = \"tracing\")]\n        let span = tracing::Span::current();\n        self.runtime")),
+    m('B14-3', 'panic reported as Aborted', ['C14'], ['R14.4'],
+      (S, ".map_err(|SpawnBlockingError::Panic(p)| InteractError::Panic(p))?", ".map_err(|SpawnBlockingError::Panic(_p)| InteractError::Aborted)?")),
+    m('B14-4', 'poisoned lock in Drop leaks the value', ['C14'], ['R14.2'],
+      (S, "                Err(e) => drop(e.into_inner().take()),", "                Err(e) => drop(e),")),
+    m('B14-5', 'new() runs the constructor inline', ['C14'], ['R14.1'],
+      (S, "        let result = match runtime.spawn_blocking(f).await {", "        let result = match runtime.spawn_blocking(move || Ok::<_, std::convert::Infallible>(())).await.map(|_| f()) {")),
+    m('B14-6', 'is_mutex_poisoned always false', ['C14'], ['R14.4'],
+      (S, "    pub fn is_mutex_poisoned(&self) -> bool {\n        self.obj.is_poisoned()", "    pub fn is_mutex_poisoned(&self) -> bool {\n        let _ = self.obj.is_poisoned();\n        false")),
+    m('B14-7', 'runtime: spawn_blocking_background runs the closure inline', ['C14'], ['R14.5'],
+      ('runtime/src/lib.rs', "            Self::Tokio1 => {\n                drop(tokio_1::task::spawn_blocking(f));\n                Ok(())\n            }", "            Self::Tokio1 => {\n                f();\n                Ok(())\n            }")),
+
+    m('B15-1', 'r2d2 recycle: no poisoned test', ['C15'], ['R15.1'],
+      ('r2d2/src/manager.rs', """        if obj.is_mutex_poisoned() {
+            return Err(RecycleError::message(
+                "Mutex is poisoned. Connection is considered unusable.",
+            ));
+        }
+""", "")),
+    m('B15-2', 'r2d2 ignores has_broken', ['C15'], ['R15.3'],
+      ('r2d2/src/manager.rs', "            if r2d2_manager.has_broken(obj) {", "            if false && r2d2_manager.has_broken(obj) {")),
+    m('B15-3', 'diesel checks the transaction manager only for Verified', ['C15'], ['R15.4'],
+      ('diesel/src/manager.rs', """        if C::TransactionManager::is_broken_transaction_manager(conn) {
+            return Err(Error::BrokenTransactionManger);
+        }
+        match self {
+            // For fast we are basically done
+            RecyclingMethod::Fast => {}""", """        match self {
+            // For fast we are basically done
+            RecyclingMethod::Fast => {}"""),
+      ('diesel/src/manager.rs', "            RecyclingMethod::Verified => {\n                let _ =", "            RecyclingMethod::Verified => {\n                if C::TransactionManager::is_broken_transaction_manager(conn) {\n                    return Err(Error::BrokenTransactionManger);\n                }\n                let _ =")),
+    m('B15-4', 'sqlite: poisoned test logs but continues', ['C15'], ['R15.1'],
+      ('sqlite/src/lib.rs', """        if conn.is_mutex_poisoned() {
+            return Err(RecycleError::Message(
+                "Mutex is poisoned. Connection is considered unusable.".into(),
+            ));
+        }""", """        if conn.is_mutex_poisoned() {
+            let _ = RecycleError::<rusqlite::Error>::Message(
+                "Mutex is poisoned. Connection is considered unusable.".into(),
+            );
+        }""")),
+    m('B15-5', 'sqlite: mismatch accepted', ['C15'], ['R15.5'],
+      ('sqlite/src/lib.rs', "            Err(RecycleError::message(\"Recycle count mismatch\"))", "            Ok(())")),
+    m('B15-6', 'diesel: interaction failure (panic) treated as success', ['C15'], ['R15.2'],
+      ('diesel/src/manager.rs', """            .await
+            .map_err(|e| RecycleError::message(format!("Panic: {:?}", e)))
+            .and_then(|r| r.map_err(RecycleError::Backend))""", """            .await
+            .ok();
+        Ok(())""")),
+    m('B15-7', 'r2d2: is_valid result discarded', ['C15'], ['R15.3'],
+      ('r2d2/src/manager.rs', "                r2d2_manager.is_valid(obj).map_err(RecycleError::Backend)", "                let _ = r2d2_manager.is_valid(obj);\n                Ok(())")),
+    m('B15-8', 'diesel: Verified query error ignored', ['C15'], ['R15.4'],
+      ('diesel/src/manager.rs', "                let _ = diesel::select(1.into_sql::<diesel::sql_types::Integer>())\n                    .execute(conn)\n                    .map_err(Error::Ping)?;", "                let _ = diesel::select(1.into_sql::<diesel::sql_types::Integer>())\n                    .execute(conn)\n                    .map_err(Error::Ping);")),
+    m('B15-9', 'sqlite compares against a constant instead of the counter', ['C15'], ['R15.5'],
+      ('sqlite/src/lib.rs', "        if n == recycle_count {", "        if n == n {")),
+]
+
 BENIGN = [
     m('N01-1', 'return_object: max_size >= size', ['C01'], [],
       (M, "        if slots.size <= slots.max_size {\n            slots.vec.push_back(inner);", "        if slots.max_size >= slots.size {\n            slots.vec.push_back(inner);")),
